@@ -327,6 +327,7 @@ type FuncContract struct {
 	ModAssumed bool // the frame is assumed, not checked (listed as an assumption)
 	Sites     []Site
 	Covers    bool
+	CoverNoSites bool
 	CoverExc  []string // ret(X) exceptions
 	Loops     map[int]*LoopAnn
 	AllLoops  *LoopAnn
@@ -582,6 +583,11 @@ func ParseContractFile(path, pkgPath string) (*ContractFile, error) {
 		case "covers-nonnil-returns":
 			cur.Covers = true
 			t := strings.TrimSpace(rc.text)
+			if strings.HasPrefix(t, "nosites") {
+				// only the listed exceptions may produce non-nil results; site clauses do not count
+				cur.CoverNoSites = true
+				t = strings.TrimSpace(strings.TrimPrefix(t, "nosites"))
+			}
 			if strings.HasPrefix(t, "except") {
 				for _, part := range splitTopLevel(strings.TrimPrefix(t, "except"), ',') {
 					part = strings.TrimSpace(part)
